@@ -201,7 +201,7 @@ def _explore_part(args):
 
 def run_part(report, tier):
     bound = 1 if tier == "quick" else 2
-    deadline = time.time() + (90 if tier == "quick" else 1500)
+    deadline = time.time() + (300 if tier == "quick" else 1500)
     combos = [(fmt, what) for fmt in ("json", "pickle") for what in CONCURRENT if not (tier == "quick" and what in BOUND_OVERRIDE and fmt != "json")]
     ctx = multiprocessing.get_context("fork")
     agg = {c: {"executions": 0, "points": 0, "distinct": 0, "info": collections.Counter(), "complete": True, "outcomes": 0} for c in combos}
